@@ -340,11 +340,18 @@ func (svr *Server) Close() error {
 	// buffer (a publisher delivering to a subscriber that has stopped reading),
 	// and stop() waits for them: close every connection and buffer first, so
 	// that no stop() waits for a goroutine only a later stop() would release.
-	for _, svc := range svr.svcs {
+	//
+	// The list is shared with the goroutines of connections that are being
+	// accepted right now (handleConnection appends to it under svr.mu).
+	svr.mu.Lock()
+	svcs := append([]*service(nil), svr.svcs...)
+	svr.mu.Unlock()
+
+	for _, svc := range svcs {
 		svc.abort()
 	}
 
-	for _, svc := range svr.svcs {
+	for _, svc := range svcs {
 		log.Tracef("Stopping service: %d", svc.id)
 		svc.stop()
 	}
